@@ -322,6 +322,10 @@ def proto_programs():
         "method": ("leaf->setlimit(97)", lambda old: 97),
         "method+=": ("leaf->bump()",
                      lambda old: None if old is None else old + 1),
+        # removing a member the object only inherits changes nothing (it is
+        # not a member of the object) - whether it raises or not
+        "remove-inherited": ("do remove(leaf, 'limit') catch all NULL end",
+                             lambda old: old),
     }
     for depth in (1, 2, 3):
         for owner in list(range(depth)) + [None]:
